@@ -1,4 +1,5 @@
 import XvcIgnore.Walk
+import XvcIgnore.GitIgnore
 /-!
   Line-protocol driver of the ignore model (C09, C16): one request per line on stdin, one canonical
   answer per line on stdout.  `harness/src/bin/walker_harness.rs` answers the same requests with the
@@ -61,13 +62,6 @@ def parseEntry (s : String) : Option Entry :=
 
 def parseTreeEntries (s : String) : List Entry := (s.splitOn ";").filterMap parseEntry
 
-def dedup : List Str → List Str
-  | [] => []
-  | x :: xs => x :: (dedup xs).filter (· ≠ x)
-termination_by l => l.length
-decreasing_by
-  simp only [List.length_cons]; omega
-
 /-- build the model tree from flat entries (fuel bounds the depth) -/
 def buildTree : Nat → List Entry → Tree
   | 0, _ => .node [] [] []
@@ -83,6 +77,15 @@ def buildTree : Nat → List Entry → Tree
 
 def showPaths (l : List Str) : String := " ".intercalate (l.map hex)
 
+def parseTargets (s : String) : List Git.Target :=
+  (s.splitOn ",").filterMap (fun h =>
+    match (splitOnSlash (unhex h)).reverse with
+    | [] => none
+    | n :: d => some ⟨d.reverse, n⟩)
+
+def showContents (t : Tree) : String :=
+  " ".intercalate (((Git.allContents [] t).filter (fun dc => dc.2 ≠ [])).map (fun dc => hex dc.1 ++ ":" ++ hex dc.2))
+
 def step (line : String) : String :=
   match line.splitOn "\t" with
   | ["glob", g, p] => b01 (globMatch (unhex g) (unhex p))
@@ -93,6 +96,13 @@ def step (line : String) : String :=
     showResult (check ((pairs rest).map (fun sl => Pattern.new sl.1 sl.2)) (unhex p))
   | ["walk", t] => showPaths (walkSpec (buildTree 8 (parseTreeEntries t)))
   | ["checkignore", t, p] => showResult (check (allRules (buildTree 8 (parseTreeEntries t))) (unhex p))
+  | ["gcheckignore", t, p] => showResult (check (Git.gitRules (buildTree 8 (parseTreeEntries t))) (unhex p))
+  | ["gitignored", t, p, d] =>
+    b01 (Git.gitIgnored (buildTree 8 (parseTreeEntries t)) (splitOnSlash (unhex p)) (d == "1"))
+  | ["gtrack", t, date, dirs, files] =>
+    showContents (Git.trackUpdate (unhex date) (parseTargets dirs) (parseTargets files) (buildTree 8 (parseTreeEntries t)))
+  | ["ghandler", t, date, dirs, files] =>
+    showContents (Git.handlerUpdate (unhex date) (parseTargets dirs) (parseTargets files) (buildTree 8 (parseTreeEntries t)))
   | ["const", "common"] => hex Gen.COMMON_IGNORE_PATTERNS.toList
   | ["const", "xvcignore"] => hex Gen.XVCIGNORE_INITIAL_CONTENT.toList
   | ["const", "gitignore"] => hex Gen.GITIGNORE_INITIAL_CONTENT.toList
